@@ -28,6 +28,7 @@ def main():
     rep = V.Report(CID, "proof")
     V.build_gatery()
     harness = V.build_harness("C01_design")
+    V.build_harness("C06_retime")
     driver = V.build_model("C01", name="C01")
     if "--build-only" in sys.argv:
         sys.exit(0)
@@ -182,6 +183,11 @@ def main():
     if unconfirmed:
         broken.append(f"{len(unconfirmed)} model counterexamples not reproduced on the real simulator, first: {unconfirmed[0][0][:300]}")
 
+    import C11b
+    rviol, rbroken = C11b.run(rep, strict_diff)
+    broken += rbroken
+    for v in rviol[:4]:
+        rep.violation(dict(property=CID, broken=broken, **v), tag="retimed")
     seen = set()
     for l, real, ia, ib, stim in confirmed:
         if ia in seen or len(seen) >= 6:
